@@ -548,6 +548,8 @@ def _valid_new(m, ns, path, isdir=False):
 
 
 def _valid_rr(m, op, iso_key='iso', rr_key='rr'):
+    if op.get(rr_key) in ('.', '..'):
+        return False      # outside the modelled domain: POSIX reserves these names (the library takes them, and the path then names the directory)
     if m.rr:
         if op.get(iso_key):
             if not op.get(rr_key):
